@@ -320,45 +320,69 @@ func runC13(t *testing.T, id string, c c13Case) {
 		return
 	}
 	called := false
-	for _, h := range sr.Hooks {
-		if h.Path == c.Hook {
-			called = true
-		}
-	}
-	hookFailed := rs.failed() || rf.failed()
-	customizeFailed := c.Hook == "customize" && sr.Err != nil && len(sr.Hooks) > 0 && sr.Hooks[len(sr.Hooks)-1].Path == "customize"
-	var hookEnd int64
-	for _, h := range sr.Hooks {
-		if h.EndSeq > hookEnd {
-			hookEnd = h.EndSeq
-		}
-	}
-	var childWrites []string
-	for _, q := range sr.Requests {
-		if q.Actor == "mc" && q.Mutating() && q.GVR == sim.WidgetInfo.GVR() && q.Seq > hookEnd {
-			childWrites = append(childWrites, q.String())
-		}
-	}
-	wit := map[string]interface{}{"case": map[string]interface{}{"cfg": c.Cfg, "hook": c.Hook, "desc": c.Desc, "status": c.Status, "body": truncate(body, 600)}, "err": fmt.Sprint(sr.Err), "requests": sim.DescribeLog(sr.Requests, false)}
-	// (1) no panic: reported by M-PANIC in world.observe. (2) rejected => error and no child write
-	rejected := hookFailed || customizeFailed || c.LabelCase
-	if rejected {
-		// 429 is the documented exception for composite controllers: re-queued after the
-		// advertised delay without counting as an error (judged by C12); still no writes
-		if sr.Err == nil && sr.Panic == "" && c.Status != 429 {
-			rep.Violation("C13", id, "rejected-response-not-reported:"+c.Hook, "the hook call failed / the response must be rejected, but the sync reported no error", wit)
-		}
-		if len(childWrites) > 0 {
-			rep.Violation("C13", id, "write-on-rejected-response:"+c.Hook, fmt.Sprintf("the response was rejected, yet children were written on the strength of it: %v", childWrites), wit)
-		}
-	}
 	class := "accepted"
-	if sr.Panic != "" {
-		class = "panic"
-	} else if sr.Err != nil {
-		class = "error"
+	judge := func(sr *syncResult, attempt string) {
+		for _, h := range sr.Hooks {
+			if h.Path == c.Hook {
+				called = true
+			}
+		}
+		hookFailed := rs.failed() || rf.failed()
+		customizeFailed := c.Hook == "customize" && sr.Err != nil && len(sr.Hooks) > 0 && sr.Hooks[len(sr.Hooks)-1].Path == "customize"
+		var hookEnd int64
+		for _, h := range sr.Hooks {
+			if h.EndSeq > hookEnd {
+				hookEnd = h.EndSeq
+			}
+		}
+		var childWrites []string
+		for _, q := range sr.Requests {
+			if q.Actor == "mc" && q.Mutating() && q.GVR == sim.WidgetInfo.GVR() && q.Seq > hookEnd {
+				childWrites = append(childWrites, q.String())
+			}
+		}
+		wit := map[string]interface{}{"attempt": attempt, "case": map[string]interface{}{"cfg": c.Cfg, "hook": c.Hook, "desc": c.Desc, "status": c.Status, "body": truncate(body, 600)}, "err": fmt.Sprint(sr.Err), "requests": sim.DescribeLog(sr.Requests, false)}
+		// (1) no panic: reported by M-PANIC in world.observe. (2) rejected => error and no child write
+		rejected := hookFailed || customizeFailed || c.LabelCase
+		if rejected {
+			// 429 is the documented exception for composite controllers: re-queued after the
+			// advertised delay without counting as an error (judged by C12); still no writes
+			if sr.Err == nil && sr.Panic == "" && c.Status != 429 {
+				rep.Violation("C13", id, "rejected-response-not-reported:"+c.Hook, "the hook call failed / the response must be rejected, but the sync reported no error", wit)
+			}
+			if len(childWrites) > 0 {
+				rep.Violation("C13", id, "write-on-rejected-response:"+c.Hook, fmt.Sprintf("the response was rejected, yet children were written on the strength of it: %v", childWrites), wit)
+			}
+		}
+		if sr.Panic != "" {
+			class = "panic"
+		} else if sr.Err != nil && class != "panic" {
+			class = "error"
+		}
 	}
-	rep.Case("C13", id, called, c.Cfg.Name+"/"+c.Hook+"/"+c.Desc+"/"+fmt.Sprint(c.Status), map[string]interface{}{"cfg": c.Cfg, "hook": c.Hook, "desc": c.Desc, "status": c.Status, "outcome": class, "hookCalled": called})
+	judge(sr, "first")
+	// "reported and retried": the retry of a rejected answer (same parent generation, same bytes
+	// from the hook) and an event of a related object in between must be just as harmless
+	retried := false
+	if sr.Err != nil && sr.Panic == "" {
+		s.ExtMutate(sim.SecretInfo.GVR(), sc.ns(), "s1-"+uid, func(o sim.Obj) { sim.SetNested(o, "x", "data", "touched") })
+		if !w.quiesce() {
+			inconclusive(t, "C13", id, w.watchdog)
+			return
+		}
+		w.q.Add(sc.parentKey())
+		var sr2 *syncResult
+		for w.q.Len() > 0 && sr2 == nil {
+			if x := w.step(); x != nil && x.Key == sc.parentKey() {
+				sr2 = x
+			}
+		}
+		if sr2 != nil {
+			retried = true
+			judge(sr2, "retry")
+		}
+	}
+	rep.Case("C13", id, called, c.Cfg.Name+"/"+c.Hook+"/"+c.Desc+"/"+fmt.Sprint(c.Status), map[string]interface{}{"cfg": c.Cfg, "hook": c.Hook, "desc": c.Desc, "status": c.Status, "outcome": class, "hookCalled": called, "retried": retried})
 }
 
 func jsonDecode(b []byte) interface{} {
